@@ -148,9 +148,15 @@ def make_input(rng, genuine):
     if r < 0.92:
         data, kind = pool.structured_junk(rng)
         return data, "structured:" + kind
-    if r < 0.96:
+    if r < 0.94:
         label, fam, form, data = rng.choice(genuine)
         return data, "genuine"
+    if r < 0.96:
+        # freshly generated genuine messages (registers, strings and clocks over their whole domain, e.g. year 1 or 9999 with a deviation)
+        from vf.gen import dlms_gen
+
+        c = rng.choice((dlms_gen.aidon_case, dlms_gen.kaifa_case, dlms_gen.kamstrup_case))(rng)
+        return (c.frame if rng.random() < 0.5 else c.body), "genuine"
     # size sweep
     n = rng.choice((512, 1024, 2048, 4096, 8192))
     flavour = rng.choice(("random", "p1_lines", "aidon_big", "parens", "nulls"))
